@@ -121,6 +121,7 @@ SHAPES = {
     "keyword_only_default": ("NAME = 4\ndef f(*, k=NAME):\n    return k\nprint(f(), NAME)\n", ["NAME"]),
     "dict_and_set_comprehension": ("NAME = [1, 2]\nd = {k: k + 1 for k in NAME}\ns = {k for k in NAME if k}\nprint(sorted(d.items()), sorted(s), NAME)\n", ["NAME"]),
     "conditional_expression_and_chained_compare": ("NAME = 2\nr = NAME if 1 < NAME < 3 else -NAME\nprint(r)\n", ["NAME"]),
+    "multi_line_class_header": ("NAME = object\nOTHER = type\nclass C(\n    NAME,\n    metaclass=OTHER,\n):\n    NAME = 3\n    OTHER = 4\nprint(C.NAME, C.OTHER, C.__mro__[1] is NAME, type(C) is OTHER)\n", ["NAME", "OTHER"]),
     "del_and_augmented": ("NAME = 1\nNAME += 2\nprint(NAME)\nOTHER = [1]\ndel OTHER[0]\nprint(OTHER)\n", ["NAME", "OTHER"]),
 }
 
@@ -140,8 +141,28 @@ def shape_scenarios(draw):
     return {"scenario": "shape:" + key, "files": {"shape.py": text, "main.py": "import shape\n"}, "entry": "main.py", "names": real}
 
 
+@st.composite
+def namesake_scenarios(draw):
+    """a module name that exists at top level AND inside a package: an absolute import from within the package binds the
+    top-level module (Python 3), a relative one the sibling"""
+    fn = draw(st.sampled_from(["shorten", "clip"]))
+    files = {
+        "textutil.py": "def %s(s):\n    return s[:2]\nWIDTH = 2\n" % fn,
+        "pkg/__init__.py": "",
+        "pkg/textutil.py": "def %s(s):\n    return s.upper()\nWIDTH = 9\n" % fn,
+        "pkg/report.py": "import textutil\nfrom . import textutil as local\nfrom textutil import WIDTH\ndef show():\n    return textutil.%s('abc') + '|' + local.%s('xyz') + '|' + str(WIDTH + local.WIDTH)\n" % (fn, fn),
+        "main.py": "import pkg.report\nimport textutil\nprint(pkg.report.show(), textutil.%s('q'))\n" % fn,
+    }
+    if draw(st.booleans()):
+        files["pkg/sub/__init__.py"] = ""
+        files["pkg/sub/deep.py"] = "import textutil\nfrom .. import textutil as up\ndef show():\n    return textutil.%s('abc') + up.%s('k')\n" % (fn, fn)
+        files["main.py"] += "import pkg.sub.deep\nprint(pkg.sub.deep.show())\n"
+    return {"scenario": "namesake_modules", "files": files, "entry": "main.py", "names": [fn, "WIDTH", "textutil"]}
+
+
 def strategy(tier):
     return st.one_of(
+        namesake_scenarios(),
         shape_scenarios(), shape_scenarios(), shape_scenarios(), shape_scenarios(),
         projgen.projects(), projgen.projects(), projgen.projects(), projgen.projects(), projgen.projects(), projgen.projects(), projgen.projects(),
         projgen.projects(), projgen.projects(), projgen.projects(), projgen.projects(), projgen.projects(), projgen.projects(), projgen.projects(),
